@@ -43,15 +43,24 @@ def features (s : SchemaSet) : List String :=
   (if selfImport then ["selfimport"] else []) ++ (if cyc then ["cycle"] else []) ++
   (if (Ref.reachable s).length < s.files.length then ["unreachable"] else [])
 
+/-- the same document in another spelling that every XML parser reads to the same tree: white space around the `=` of attributes,
+    a line break before a value, a space before `/>`. (Quotes inside values and text are escaped by `xmlEsc`, so `="` only ever
+    occurs as attribute syntax.) The spelling is drawn from the seed; half of the inputs keep the plain one. -/
+def syntaxStyle (seed : Nat) (text : String) : String :=
+  match seed % 4 with
+  | 2 => text.replace "=\"" " = \""
+  | 3 => (text.replace "=\"" "=\n      \"").replace "/>" " />"
+  | _ => text
+
 def writeCase (root : String) (idx : Nat) (seed : Nat) (cyclic small : Bool) (wsdl : Bool := false) (multi : Bool := false) (topo : Bool := false) (plain : Bool := false) : IO Unit := do
   let (s, tries) := genWF seed cyclic small 0 wsdl multi topo plain
   let dir := s!"{root}/c{idx}"
   IO.FS.createDirAll s!"{dir}/in"
   for (f, i) in s.files.zipIdx do
     match s.wsdl with
-    | some w => if i == w.schemaFile then IO.FS.writeFile s!"{dir}/in/{w.fileName}" (renderWsdl s w)
-                else IO.FS.writeFile s!"{dir}/in/{f.fileName}" (renderFile s f)
-    | none => IO.FS.writeFile s!"{dir}/in/{f.fileName}" (renderFile s f)
+    | some w => if i == w.schemaFile then IO.FS.writeFile s!"{dir}/in/{w.fileName}" (syntaxStyle (seed + i) (renderWsdl s w))
+                else IO.FS.writeFile s!"{dir}/in/{f.fileName}" (syntaxStyle (seed + i) (renderFile s f))
+    | none => IO.FS.writeFile s!"{dir}/in/{f.fileName}" (syntaxStyle (seed + i) (renderFile s f))
   let startName := match s.wsdl with
     | some w => w.fileName
     | none => ((s.files[s.start]?).map (fun (f : SchemaFile) => f.fileName)).getD ""
